@@ -102,6 +102,10 @@ def fill_markdown(
 
     # Reattach frontmatter if it was present
     if frontmatter:
+        if not content.strip():
+            # Nothing but frontmatter (e.g. an unclosed `---` block): rendering the empty body
+            # would append one more newline on every run.
+            return frontmatter if frontmatter.endswith("\n") else frontmatter + "\n"
         result = frontmatter + result
 
     return result
